@@ -3,6 +3,7 @@ C08 helper lemmas, part 9: `trans_in` (the induction) and `trans_top` (chains wh
 as a whole).
 -/
 import Verif.Proofs.SubTrans3
+import Verif.Proofs.SubStruct
 namespace Verif.Proofs.SubTrans
 open Verif.Model.Types Verif.Model.Types.Struct Verif.Model.Auth Verif.Proofs.SubUnfold Verif.Proofs.SubNominal
 
